@@ -12,7 +12,7 @@ use emmylua_parser::{
     LuaAstNode, LuaDocDescription, LuaKind, LuaParser, LuaSyntaxElement, LuaTokenKind, ParserConfig, Reader,
     SourceRange,
 };
-use emmylua_parser_desc::verif::{BacktrackPoint, desc_to_lines, sort_result};
+use emmylua_parser_desc::verif::{BacktrackPoint, desc_to_lines, is_blank, is_ws, sort_result};
 use emmylua_parser_desc::{CodeBlockHighlightKind, DescItem, DescItemKind, DescParserType, ResultContainer, parse};
 use rowan::{Direction, TextRange, TextSize};
 use serde_json::{Value, json};
@@ -99,20 +99,20 @@ impl ResultContainer for Cont {
 
 fn pred(code: u64, arg: char) -> impl Fn(char) -> bool {
     move |c: char| match code {
-        0 => matches!(c, ' ' | '\t'),
+        0 => is_ws(c), // the real predicate the parsers pass to eat_while / consume_n_times
         1 => c.is_ascii_digit(),
         2 => true,
         3 => c == arg,
         4 => c != arg,
         5 => c.is_ascii_alphanumeric() || matches!(c, '.' | ':' | '+' | '_' | '-'),
-        6 => !matches!(c, ' ' | '\t'),
+        6 => !is_ws(c),
         _ => c.is_whitespace(),
     }
 }
 
 const M_ALPHABET: &[char] = &[
     'a', 'b', 'Z', '0', '7', ' ', ' ', '\t', '`', '*', '_', ':', '-', '.', '[', ']', '\\', 'é', 'ß', '中', '😀', '𝒳',
-    '\u{a0}', '\u{2028}', '\0', '\r', '\n', '•', '<', '>',
+    '\u{a0}', '\u{2028}', '\0', '\r', '\n', '•', '<', '>', '\u{3000}', '\u{2003}', '\u{feff}', '\u{202f}',
 ];
 
 fn gen_m_text(rng: &mut Rng, maxlen: usize) -> String {
@@ -409,10 +409,66 @@ const RST_FRAGS: &[&str] = &[
 const SOUP: &[char] = &[
     '`', '`', '*', '*', '_', ':', ':', '[', ']', '(', ')', '<', '>', '{', '}', '|', '\\', '-', '-', '#', '~', '$', '.', '.',
     ' ', ' ', ' ', '\t', 'a', 'b', '1', '@', '!', '+', '=', '"', '\'', 'é', '中', '😀', '\u{a0}', '\u{2028}', '•', '\0', '\r',
+    '\u{3000}', '\u{2003}', '\u{feff}', '\u{202f}', '\u{205f}', '\u{2029}',
 ];
+
+/// every kind of blank: ASCII, Latin-1, the U+2000 block, line/paragraph separators, narrow / math / ideographic
+/// spaces, the BOM — plus a multi-byte letter so that "indentation" made of multi-byte characters is routine
+const BLANKS: &[char] = &[
+    ' ', '\t', '\u{a0}', '\u{2000}', '\u{2001}', '\u{2002}', '\u{2003}', '\u{2004}', '\u{2005}', '\u{2006}', '\u{2007}',
+    '\u{2008}', '\u{2009}', '\u{200a}', '\u{2028}', '\u{2029}', '\u{202f}', '\u{205f}', '\u{3000}', '\u{feff}', '\u{1680}',
+    '\u{85}', '\u{b}', '\u{c}', '中', 'é',
+];
+const CJK_BLANKS: &[char] = &[' ', ' ', '\t', '\u{3000}', '\u{3000}'];
+
+/// leading indentation of one comment line; `style` is fixed per comment block so that whole blocks share a kind
+fn gen_indent(rng: &mut Rng, style: usize, block_blank: char) -> String {
+    let mut s = String::new();
+    match style {
+        0 => {
+            // the classic ASCII shapes
+            s.push_str(match rng.below(8) {
+                0 => "",
+                1 => "  ",
+                2 => "\t",
+                3 => "     ",
+                _ => " ",
+            });
+        }
+        1 => {
+            // space / tab / ideographic space: 1-3 of them on EVERY line (common indent > 0)
+            for _ in 0..(1 + rng.below(3)) {
+                s.push(*rng.pick(CJK_BLANKS));
+            }
+        }
+        2 => {
+            // one fixed blank character repeated (a block indented consistently with an exotic blank)
+            let c = block_blank;
+            for _ in 0..(1 + rng.below(3)) {
+                s.push(c);
+            }
+        }
+        _ => {
+            // any mixture of blanks, 0-4 characters
+            for _ in 0..rng.below(5) {
+                s.push(*rng.pick(BLANKS));
+            }
+        }
+    }
+    s
+}
+
+fn gen_joiner(rng: &mut Rng, style: usize) -> String {
+    if style == 0 || rng.chance(2, 3) {
+        " ".to_string()
+    } else {
+        rng.pick(BLANKS).to_string()
+    }
+}
 
 struct GenStats {
     modes: [usize; 6],
+    indent_styles: [usize; 4],
 }
 
 fn gen_comment(rng: &mut Rng, stats: &mut GenStats) -> String {
@@ -435,6 +491,9 @@ fn gen_comment(rng: &mut Rng, stats: &mut GenStats) -> String {
         }
     }
     let tag_first = rng.chance(1, 5);
+    let indent_style = rng.below(4);
+    let block_blank = *rng.pick(BLANKS);
+    stats.indent_styles[indent_style] += 1;
     for li in 0..nlines {
         let mut line = String::new();
         if !long_comment {
@@ -455,14 +514,7 @@ fn gen_comment(rng: &mut Rng, stats: &mut GenStats) -> String {
                 // `--- #region x`: the TkNormalStart stays OUTSIDE the description node (prev-token path of desc_to_lines)
                 line.push_str(*rng.pick(&[" #region ", "#region", " region ", "#endregion ", " endregion"]));
             }
-            let sp = rng.below(8);
-            line.push_str(match sp {
-                0 => "",
-                1 => "  ",
-                2 => "\t",
-                3 => "     ",
-                _ => " ",
-            });
+            line.push_str(&gen_indent(rng, indent_style, block_blank));
         }
         match mode {
             0 | 1 => {
@@ -471,7 +523,7 @@ fn gen_comment(rng: &mut Rng, stats: &mut GenStats) -> String {
                 for _ in 0..nf {
                     line.push_str(*rng.pick(MD_FRAGS));
                     if rng.chance(1, 2) {
-                        line.push(' ');
+                        line.push_str(&gen_joiner(rng, indent_style));
                     }
                 }
             }
@@ -480,7 +532,7 @@ fn gen_comment(rng: &mut Rng, stats: &mut GenStats) -> String {
                 for _ in 0..nf {
                     line.push_str(*rng.pick(RST_FRAGS));
                     if rng.chance(1, 2) {
-                        line.push(' ');
+                        line.push_str(&gen_joiner(rng, indent_style));
                     }
                 }
             }
@@ -490,7 +542,7 @@ fn gen_comment(rng: &mut Rng, stats: &mut GenStats) -> String {
                 for _ in 0..nf {
                     line.push_str(if rng.chance(1, 2) { *rng.pick(MD_FRAGS) } else { *rng.pick(RST_FRAGS) });
                     if rng.chance(1, 3) {
-                        line.push(' ');
+                        line.push_str(&gen_joiner(rng, indent_style));
                     }
                 }
             }
@@ -545,6 +597,15 @@ const CORPUS: &[&str] = &[
     "--- #region *x* `y`\n--- more\n",
     "---#region\n---     code\n--- x\n",
     "---   region    a\n---  b\n",
+    // seeded/C37 demo inputs: full-width (ideographic) space U+3000 in and around the indentation
+    "--- See *this* and `that`\n--- - 测试 list\n---   continued\nlocal x = 1\n",
+    "---   indented 中文\n---   more **text**\n---\n---   end\nlocal x = 1\n",
+    "--- a\u{3000}b *c*\n--- d\nlocal x = 1\n",
+    "---no indent\n---\u{3000}full-width indent\nlocal x = 1\n",
+    "--- first line\n---\u{3000}second line\nlocal x = 1\n",
+    "---\u{3000}说明 *text*\nlocal x = 1\n",
+    "---  - item\n--- \u{3000}- 项目\nlocal x = 1\n",
+    "---\u{a0}nbsp indent\n---\u{2003}em space\n---\u{feff}bom\n",
 ];
 
 // ------------------------------------------------------------------------------------------- search
@@ -718,7 +779,7 @@ fn main() {
                 println!("{}", sort_case(&mut rng));
             }
             // desc_to_lines cases
-            let mut stats = GenStats { modes: [0; 6] };
+            let mut stats = GenStats { modes: [0; 6], indent_styles: [0; 4] };
             let mut texts: Vec<String> = CORPUS.iter().map(|s| s.to_string()).collect();
             texts.extend(load_corpus_dir());
             for _ in 0..(n / 2) {
@@ -734,10 +795,32 @@ fn main() {
                 }
             }
         }
+        "classes" => {
+            // the EXTENSION of the character-class predicates the model depends on, over all Unicode scalar values
+            let (mut ws, mut blank, mut trim) = (Vec::new(), Vec::new(), Vec::new());
+            let mut buf = String::new();
+            for u in 0..=0x10FFFFu32 {
+                if let Some(c) = char::from_u32(u) {
+                    if is_ws(c) {
+                        ws.push(u);
+                    }
+                    buf.clear();
+                    buf.push(c);
+                    if is_blank(&buf) {
+                        blank.push(u);
+                    }
+                    buf.insert(0, 'a');
+                    if buf.trim_end().len() == 1 {
+                        trim.push(u);
+                    }
+                }
+            }
+            println!("{}", json!({"is_ws": ws, "is_blank": blank, "trim_end": trim, "is_blank_empty": is_blank("")}));
+        }
         "search" => {
             let timeout = Duration::from_millis(args.u64("timeout-ms", 10000));
             let mut rng = Rng::new(seed ^ 0x37C);
-            let mut stats = GenStats { modes: [0; 6] };
+            let mut stats = GenStats { modes: [0; 6], indent_styles: [0; 4] };
             let mut texts: Vec<String> = CORPUS.iter().map(|s| s.to_string()).collect();
             texts.extend(load_corpus_dir());
             let ncorpus = texts.len();
@@ -827,7 +910,8 @@ fn main() {
                     "distinct_nontrivial": distinct.len(), "violations": nviol, "stopped_on_hang": hang,
                     "items_starting_in_marker_whitespace_before_desc_node": before,
                     "texts_with_cursor": with_cursor, "texts_multibyte": multibyte, "texts_crlf": crlf, "texts_with_nul": with_nul,
-                    "gen_modes": {"md": stats.modes[0] + stats.modes[1], "rst": stats.modes[2] + stats.modes[3], "mixed": stats.modes[4], "soup": stats.modes[5]}}})
+                    "gen_modes": {"md": stats.modes[0] + stats.modes[1], "rst": stats.modes[2] + stats.modes[3], "mixed": stats.modes[4], "soup": stats.modes[5]},
+                    "indent_styles": {"ascii": stats.indent_styles[0], "space_tab_ideographic": stats.indent_styles[1], "one_exotic_blank": stats.indent_styles[2], "any_blanks": stats.indent_styles[3]}}})
             );
             // the worker may be stuck in a non-terminating call: never join
             std::process::exit(0);
